@@ -26,7 +26,7 @@ REAL = ["rpyc.utils.registry.UDPRegistryServer / TCPRegistryServer (_work, cmd_q
 STUB = ["UDP/TCP sockets, hosts, datagram loss/duplication/reordering (in-memory kernel)", "time (virtual clock)"]
 ASSUMPTIONS = ["the model is fed with the commands the server actually processed; a pair that lapsed and re-registered before any query may or may "
                "not produce removed+added notifications (the lapse was never observable)"]
-PROBES = ["c18:hostile-input", "c18:entry-pruned", "c18:unregister", "c18:tcp-silent-client", "c18:tcp-connect-and-leave", "fault:udp-loss", "fault:udp-dup"]
+PROBES = ["c18:hostile-input", "c18:entry-pruned", "c18:unregister", "c18:tcp-silent-client", "c18:tcp-connect-and-leave", "fault:udp-loss", "fault:udp-dup", "c18:registry-descriptor-limit"]
 CHUNK = 20
 PORT = 18811
 
